@@ -23,7 +23,8 @@
      sorted_set      <- sorted(list(set(token_sequence)))
      mk_dict         <- dict(zip(tokens, range(len(tokens))))
      index_list      <- [token_dictionary[token] for token in token_sequence if token in token_dictionary]
-     bincount        <- np.bincount(index_list [, minlength])
+     bincount        <- np.bincount(index_list, minlength)   (construct: minlength = len(token_dictionary), so the
+                        frequency table has one entry per dictionary entry, 0 for absent tokens)
      construct       <- construct_token_dictionary_and_frequency
      doc_counts      <- the doc_freq += np.bincount([...set(doc)], minlength=n_tokens) loop
      resolve_min/max <- preprocessing.py:212-249
@@ -110,7 +111,7 @@ Definition index_list (d : dict) (s : list T) : list nat :=
 Definition construct (s : list T) (d0 : option dict) : dict * list Z * Z :=
   let n := Z.of_nat (length s) in
   let d := match d0 with Some d => d | None => mk_dict (sorted_set s) end in
-  (d, map (fun c => f32div c n) (bincount (index_list d s) 0), n).
+  (d, map (fun c => f32div c n) (bincount (index_list d s) (length d)), n).
 
 (* construct_document_frequency: float64 keys.  set(doc) is modelled by sorted_set doc (bincount does not depend
    on the order); a token of a document missing from the dictionary would be a KeyError in the code — this does
